@@ -111,6 +111,7 @@ func EstablishPDU(sst int32, sd string, ue *tglib.RanUeContext, conn *sctp.SCTPC
 	_, err = conn.Write(sendMsg)
 	ManageError("Error establishing PDU", err)
 
+	tglib.VerifEmit(map[string]interface{}{"ev": "EstablishPDU", "supi": ue.Supi, "ip": []byte(clientip), "teid": teid, "upf": []byte(upfip)})
 	return clientip, teid, upfip
 }
 
